@@ -11,7 +11,7 @@
     Schemas are well formed ([wfl]: distinct names per level); nesting depth, array sizes, numbers
     of values, documents, segments and the shape of filters are unbounded. *)
 From Coq Require Import List NArith ZArith Bool.
-From SL Require Import Base.Tie C08.Model C14.Model C14.Proofs C14.Queries C14.Columns C14.Compact C14.Unfixed.
+From SL Require Import Base.Tie C08.Model C14.Model C14.Proofs C14.Queries C14.Columns C14.Compact C14.Unfixed C14.Stored.
 Import ListNotations.
 Open Scope N_scope.
 
@@ -100,6 +100,20 @@ Theorem C14_model_meets_spec : forall (i : case_in) (qh : list (list N)),
   spec (c_sch i) (model i qh) = true.
 Proof. exact model_meets_spec. Qed.
 
+(** Extension of C04 ("stored fields equal to the stored projection of that version"): running
+    collect_document as the code does - one pass over the document's fields, push_stored into a
+    map of value lists, nested values into a second map, finalize_stored - succeeds on a valid
+    document and yields exactly the stored projection [sp sch d] (as a map: same value under every
+    key); and the projection of a projection is itself. *)
+Theorem C04_stored_projection : forall sch d,
+  wfl sch = true -> NoDup (map fst d) -> valid sch d = true ->
+  exists o, collect_stored sch d = Some o /\ forall k, jlookup k o = jlookup k (sp sch d).
+Proof. exact stored_projection. Qed.
+
+Theorem C04_stored_projection_idempotent : forall sch d,
+  wfl sch = true -> sp sch (sp sch d) = sp sch d.
+Proof. exact sp_idem. Qed.
+
 (** The stored form computed before the repair does not have the property: a nested filter
     changes its answer, and a valid document's stored form is refused by validation. *)
 Theorem C14_unfixed_refuted :
@@ -130,6 +144,8 @@ Example C14_nonvacuous :
   /\ well_typed (fsch sch) f = true
   /\ sp sch d1 = [(2, JArr [JStr (0, 0); JStr (1, 1); JStr (2, 2)]); (3, JNum None 7%Z);
                   (0, JArr [JObj []; JObj [(1, JStr (3, 3))]; JObj []])]
+  /\ option_map (fun o => map (fun p => jlookup (xname p) o) sch) (collect_stored sch d1)
+     = Some (map (fun p => jlookup (xname p) (sp sch d1)) sch)
   /\ out_ok (compact sch m) = true
   /\ live_ids (out_man (compact sch m)) = [1; 3; 2]
   /\ filter_hits sch m f = [1; 3; 2]
